@@ -3699,6 +3699,14 @@ func (r *Resolver) processDelegation(ctx context.Context, rs *resolveState, resp
 		}
 	}
 
+	// The delegation cache clamps its own entry to the lease ceiling, but
+	// this deadline also travels on - into the answer's cut, the DS/DNSKEY
+	// entries of the descent and every deeper delegation - so the ceiling has
+	// to be applied here, or those outlive the delegation they came through.
+	if ceiling := observedAt.Add(authority.MaximumLease); leaseDeadline.After(ceiling) {
+		leaseDeadline = ceiling
+	}
+
 	// Inherit the ancestor cut: a descendant delegation can never outlive
 	// the shallowest delegation on its path (Phoenix T2). This absolute
 	// deadline is stored verbatim (SetUntil), never reconstructed from a
